@@ -2,6 +2,7 @@
      (<dump-path> <fixed 0|1> <f3 0|1> <f4 0|1> <numeric 0|1> (<class name cps> ...) (<extension cps>))
    Output: ((codes...) <value>)   codes: V = VALUE_INVALID, I = UNITS_INVALID, M = UNITS_MISSING
            value: none | (q <num> <den>) | (exn <name>)      integers in binary: [-]b1011 or 0
+   or (<dump-path> M <f3> <f4> ((<numeric> (<class>...) (<extension>)) ...)) -> (codes...) for a whole string.
    The schema dump (written by the translator from the same dict as coq/Gen/Units_<v>.v) is
      ((class ...) ...) ((mod ...) ...)   see harness/c11.py dump_sx *)
 let exn_name (e : exn) : string = match e with
@@ -62,4 +63,12 @@ let () = main_loop (fun x ->
       | Ok None -> A "none"
       | Ok (Some q) -> let r = qred q in L [A "q"; z_sx r.qnum; z_sx (Zpos r.qden)] in
     L [L (List.map code_sx codes); v]
+  | L [A path; A "M"; x3; x4; L tags] ->
+    (* a whole string: ((numeric (classes) (extension)) ...) in visiting order -> (codes...) *)
+    let s = load path in
+    let mk = function
+      | L [num; L cls; ext] ->
+        ({ t_name = []; t_classes = List.map sx_str cls; t_numeric = sx_bool num }, sx_str ext)
+      | _ -> failwith "tag" in
+    L (List.map code_sx (validate_units_string (sx_bool x3) (sx_bool x4) s (List.map mk tags)))
   | _ -> failwith "case")
